@@ -281,7 +281,7 @@ func init() {
 	axiomContracts["sort.Search"] = &Contract{Axiom: true, Post: []CIneq{cGE(cR(0), cK(0)), cLE(cR(0), cP(0))}}
 	// path/filepath.Ext returns a suffix of its argument (read from the standard library source)
 	axiomContracts["path/filepath.Ext"] = &Contract{Axiom: true, Post: []CIneq{cLE(cLenR(0), cLenP(0))}}
-	axiomContracts[ci+".ReverseSize"] =&Contract{Axiom: true, Post: []CIneq{cLE(cR(0), cLenP(0)), cGE(cR(0), cK(-1)), cLE(cR(0), cK(9))}}
+	axiomContracts[ci+".ReverseSize"] = &Contract{Axiom: true, Post: []CIneq{cLE(cR(0), cLenP(0)), cGE(cR(0), cK(-1)), cLE(cR(0), cK(9))}}
 	// encoding/binary.bigEndian: Uint16/32/64(b) require len(b) >= 2/4/8
 	for n, k := range map[string]int64{"Uint16": 2, "Uint32": 4, "Uint64": 8, "PutUint16": 2, "PutUint32": 4, "PutUint64": 8} {
 		axiomContracts["encoding/binary.bigEndian."+n] = &Contract{Axiom: true, Pre: []CIneq{cGE(cLenP(1), cK(k))}}
@@ -364,16 +364,16 @@ type fnCtx struct {
 }
 
 type solveState struct {
-	fc        *fnCtx
-	fs        factSet
-	goal      Ineq
-	sigma     map[ssa.Value]ssa.Value
-	seenVar   map[int]bool
-	seenCall  map[*ssa.Call]bool
-	okCall    map[*ssa.Call]bool
-	sumCall   map[*ssa.Call]bool
-	budget    *int
-	assumeNil []ssa.Value
+	fc           *fnCtx
+	fs           factSet
+	goal         Ineq
+	sigma        map[ssa.Value]ssa.Value
+	seenVar      map[int]bool
+	seenCall     map[*ssa.Call]bool
+	okCall       map[*ssa.Call]bool
+	sumCall      map[*ssa.Call]bool
+	budget       *int
+	assumeNil    []ssa.Value
 	pendingCalls []*ssa.Call
 }
 
